@@ -315,6 +315,12 @@ class XMLSchemaConverter(NamespaceMapper):
 
         return elem
 
+    def is_cdata(self, name: str) -> bool:
+        """Returns `True` if the name is a key of a character data section."""
+        return self.cdata_prefix is not None and \
+            name.startswith(self.cdata_prefix) and \
+            name[len(self.cdata_prefix):].isdigit()
+
     def is_xmlns(self, name: str) -> bool:
         """Returns `True` if the name is a xmlns declaration."""
         return name.startswith(self.ns_prefix) and \
@@ -413,22 +419,25 @@ class XMLSchemaConverter(NamespaceMapper):
                 result_dict.update(self.map_attributes(data.attributes))
 
             has_single_group = xsd_group.is_single()
+            multiple = set()  # names of the children already collected in a list
             for name, value, xsd_child in self.map_content(data.content):
                 try:
                     result = result_dict[name]
                 except KeyError:
-                    if xsd_child is None or has_single_group and xsd_child.is_single():
-                        result_dict[name] = self.list_class((value,)) if self.force_list else value
+                    if xsd_child is None and self.is_cdata(name):
+                        result_dict[name] = value  # character data is never put in a list
+                    elif (xsd_child is None or has_single_group and xsd_child.is_single()) \
+                            and not self.force_list:
+                        result_dict[name] = value
                     else:
                         result_dict[name] = self.list_class((value,))
+                        multiple.add(name)
                 else:
-                    if not isinstance(result, MutableSequence) or not result:
-                        result_dict[name] = self.list_class((result, value))
-                    elif isinstance(result[0], MutableSequence) or \
-                            not isinstance(value, MutableSequence):
+                    if name in multiple:
                         result.append(value)
                     else:
                         result_dict[name] = self.list_class((result, value))
+                        multiple.add(name)
 
         if not level and self.preserve_root:
             return self.dict_class(((self.map_qname(data.tag), result_dict or None),))
